@@ -336,21 +336,105 @@ Proof.
   - apply Hs.
 Qed.
 
+(* generic in the validator and under storage faults: if whatever `validate` accepts is bound, only bound content is
+   stored / returned; failing Gets and Puts change nothing about that *)
+Lemma loop_g_sound L validate gfail pfail keys :
+  (forall k c, validate k c = Ok tt -> genuine L k c) ->
+  forall contents i s puts r s' puts',
+    validate_contents_loop_g validate gfail pfail keys i contents s puts = (r, s', puts') ->
+    store_ok L s -> Forall (gp L) puts -> store_ok L s' /\ Forall (gp L) puts'.
+Proof.
+  intros Hv.
+  induction contents as [|c rest IH]; intros i s puts r s' puts' H Hs Hp; cbn [validate_contents_loop_g] in H.
+  - inversion H; subst. auto.
+  - destruct (idx keys i) as [k|e|]; try (inversion H; subst; auto; fail).
+    destruct (if gfail then None else store_get s k).
+    + eapply IH; eauto.
+    + destruct (validate k c) as [[]|e|] eqn:V; try (inversion H; subst; auto; fail).
+      assert (G : genuine L k c) by (apply Hv; exact V).
+      destruct pfail.
+      * eapply IH; eauto.
+      * eapply IH; [exact H | now apply store_ok_put |].
+        apply Forall_app. split; [exact Hp | constructor; [exact G | constructor]].
+Qed.
+
+Lemma loop_g_no_panic validate gfail pfail keys :
+  (forall k c, validate k c <> Panic) ->
+  forall contents i s puts, (i + length contents <= length keys)%nat ->
+    fst (fst (validate_contents_loop_g validate gfail pfail keys i contents s puts)) <> Panic.
+Proof.
+  intros Hv.
+  induction contents as [|c rest IH]; intros i s puts Hl; cbn [validate_contents_loop_g].
+  - discriminate.
+  - cbn [length] in Hl. unfold idx. destruct (nth_error keys i) as [k|] eqn:N.
+    2:{ apply nth_error_None in N. lia. }
+    destruct (if gfail then None else store_get s k).
+    + apply IH. lia.
+    + pose proof (Hv k c) as NP.
+      destruct (validate k c) as [[]|e|]; [|discriminate|contradiction].
+      destruct pfail; apply IH; lia.
+Qed.
+
+Lemma getter_g_sound L {A} validate gfail pfail sel (decode : bytes -> option A) lookup s hash r s' p :
+  (forall k c, validate k c = Ok tt -> genuine L k c) ->
+  getter_g validate gfail pfail sel decode lookup s hash = (r, s', p) -> store_ok L s ->
+  store_ok L s' /\ Forall (gp L) p /\
+  (forall a, r = Ok a -> exists c, genuine L (sel :: hash) c /\ decode c = Some a).
+Proof.
+  intros Hv H Hs. unfold getter_g in H.
+  destruct gfail.
+  { inversion H; subst. repeat split; auto; discriminate. }
+  destruct (store_get s (sel :: hash)) as [local|] eqn:G.
+  - inversion H; subst. split; [exact Hs|]. split; [constructor|].
+    intros a Ha. exists local. split; [now apply Hs|]. destruct (decode local); [now inversion Ha | discriminate].
+  - destruct (lookup (sel :: hash)) as [content|].
+    2:{ inversion H; subst. repeat split; auto; discriminate. }
+    destruct (validate (sel :: hash) content) as [[]|e|] eqn:V;
+      try (inversion H; subst; repeat split; auto; discriminate).
+    assert (Gn : genuine L (sel :: hash) content) by (apply Hv; exact V).
+    destruct (decode content) as [a|] eqn:D.
+    + destruct pfail.
+      * inversion H; subst. split; [exact Hs|]. split; [constructor|].
+        intros a' Ha. inversion Ha; subst. now exists content.
+      * inversion H; subst. split; [now apply store_ok_put|]. split; [constructor; [exact Gn | constructor]|].
+        intros a' Ha. inversion Ha; subst. now exists content.
+    + inversion H; subst. repeat split; auto; discriminate.
+Qed.
+
+Lemma getter_g_no_panic {A} validate gfail pfail sel (decode : bytes -> option A) lookup s hash :
+  (forall k c, validate k c <> Panic) ->
+  fst (fst (getter_g validate gfail pfail sel decode lookup s hash)) <> Panic.
+Proof.
+  intros Hv. unfold getter_g. destruct gfail; [discriminate|].
+  destruct (store_get s (sel :: hash)) as [local|]; cbn [fst].
+  - destruct (decode local); discriminate.
+  - destruct (lookup (sel :: hash)) as [content|]; [|discriminate].
+    pose proof (Hv (sel :: hash) content) as NP.
+    destruct (validate (sel :: hash) content) as [[]|e|]; [|discriminate|contradiction].
+    destruct (decode content); [destruct pfail|]; discriminate.
+Qed.
+
+(* the functions written out in the Section are the fault-free instances of the generic glue *)
+Lemma loop_is_instance L v src keys : forall contents i s puts,
+  vcs_loop L v src keys i contents s puts = validate_contents_loop_g (vc L v src) false false keys i contents s puts.
+Proof.
+  unfold vcs_loop, vc. induction contents as [|c rest IH]; intros i s puts; cbn [validate_contents_loop validate_contents_loop_g]; [reflexivity|].
+  destruct (idx keys i) as [k|e|]; try reflexivity.
+  destruct (store_get s k); [apply IH|].
+  destruct (validate_content _ _ _ _ _ _ _ _ _ _ _ _ _ v src k c) as [[]|e|]; try reflexivity. apply IH.
+Qed.
+Lemma getter_is_instance L v {A} sel (decode : bytes -> option A) src lookup s hash :
+  gett L v sel decode src lookup s hash = getter_g (vc L v src) false false sel decode lookup s hash.
+Proof. reflexivity. Qed.
+
+(* the instances with the history validator *)
 Lemma vcs_loop_sound L v src keys : v_bind v = true -> v_wd v = true -> v_numlen v = true ->
   forall contents i s puts r s' puts',
     vcs_loop L v src keys i contents s puts = (r, s', puts') ->
     store_ok L s -> Forall (gp L) puts -> store_ok L s' /\ Forall (gp L) puts'.
 Proof.
-  intros Hb Hw Hn. unfold vcs_loop.
-  induction contents as [|c rest IH]; intros i s puts r s' puts' H Hs Hp; cbn [validate_contents_loop] in H.
-  - inversion H; subst. auto.
-  - destruct (idx keys i) as [k|e|]; try (inversion H; subst; auto; fail).
-    destruct (store_get s k).
-    + eapply IH; eauto.
-    + fold_vc L v. destruct (vc L v src k c) as [[]|e|] eqn:V; try (inversion H; subst; auto; fail).
-      assert (G : genuine L k c) by (eapply (accept_sound L v src k c Hb Hw Hn); exact V).
-      eapply IH; [exact H | now apply store_ok_put |].
-      apply Forall_app. split; [exact Hp | constructor; [exact G | constructor]].
+  intros Hb Hw Hn contents i s puts r s' puts'. rewrite loop_is_instance.
+  apply loop_g_sound. intros k c. apply (accept_sound L v src k c Hb Hw Hn).
 Qed.
 
 Lemma vcs_sound L v src keys contents s r s' puts : v_bind v = true -> v_wd v = true -> v_numlen v = true ->
@@ -362,15 +446,8 @@ Lemma vcs_loop_no_panic L v src keys : v_key v = true -> v_wd v = true ->
   forall contents i s puts, (i + length contents <= length keys)%nat ->
     fst (fst (vcs_loop L v src keys i contents s puts)) <> Panic.
 Proof.
-  intros Hk Hw Hp. unfold vcs_loop.
-  induction contents as [|c rest IH]; intros i s puts Hl; cbn [validate_contents_loop].
-  - discriminate.
-  - cbn [length] in Hl. unfold idx. destruct (nth_error keys i) as [k|] eqn:N.
-    2:{ apply nth_error_None in N. lia. }
-    destruct (store_get s k).
-    + apply IH. lia.
-    + pose proof (no_panic L v src k c Hk Hw Hp) as NP. fold_vc L v.
-      destruct (vc L v src k c) as [[]|e|]; [apply IH; lia | discriminate | contradiction].
+  intros Hk Hw Hp contents i s puts. rewrite loop_is_instance. revert contents i s puts. apply loop_g_no_panic.
+  intros k c. apply (no_panic L v src k c Hk Hw Hp).
 Qed.
 
 Lemma getter_sound L v {A} sel (decode : bytes -> option A) src lookup s hash r s' p :
@@ -379,32 +456,16 @@ Lemma getter_sound L v {A} sel (decode : bytes -> option A) src lookup s hash r 
   store_ok L s' /\ Forall (gp L) p /\
   (forall a, r = Ok a -> exists c, genuine L (sel :: hash) c /\ decode c = Some a).
 Proof.
-  intros Hb Hw Hn H Hs. unfold gett, getter in H.
-  destruct (store_get s (sel :: hash)) as [local|] eqn:G.
-  - inversion H; subst. split; [exact Hs|]. split; [constructor|].
-    intros a Ha. exists local. split; [now apply Hs|]. destruct (decode local); [now inversion Ha | discriminate].
-  - destruct (lookup (sel :: hash)) as [content|].
-    2:{ inversion H; subst. repeat split; auto; discriminate. }
-    fold_vc L v. destruct (vc L v src (sel :: hash) content) as [[]|e|] eqn:V;
-      try (inversion H; subst; repeat split; auto; discriminate).
-    assert (Gn : genuine L (sel :: hash) content) by (eapply (accept_sound L v src _ content Hb Hw Hn); exact V).
-    destruct (decode content) as [a|] eqn:D.
-    + inversion H; subst. split; [now apply store_ok_put|]. split; [constructor; [exact Gn | constructor]|].
-      intros a' Ha. inversion Ha; subst. now exists content.
-    + inversion H; subst. repeat split; auto; discriminate.
+  intros Hb Hw Hn. rewrite getter_is_instance. apply getter_g_sound.
+  intros k c. apply (accept_sound L v src k c Hb Hw Hn).
 Qed.
 
 Lemma getter_no_panic L v {A} sel (decode : bytes -> option A) src lookup s hash :
   v_key v = true -> v_wd v = true -> (forall h p, l_proof_check L h p <> Panic) ->
   fst (fst (gett L v sel decode src lookup s hash)) <> Panic.
 Proof.
-  intros Hk Hw Hp. unfold gett, getter.
-  destruct (store_get s (sel :: hash)) as [local|]; cbn [fst].
-  - destruct (decode local); discriminate.
-  - destruct (lookup (sel :: hash)) as [content|]; [|discriminate].
-    pose proof (no_panic L v src (sel :: hash) content Hk Hw Hp) as NP. fold_vc L v.
-    destruct (vc L v src (sel :: hash) content) as [[]|e|]; [|discriminate|contradiction].
-    destruct (decode content); discriminate.
+  intros Hk Hw Hp. rewrite getter_is_instance. apply getter_g_no_panic.
+  intros k c. apply (no_panic L v src k c Hk Hw Hp).
 Qed.
 
 (* one step of a history and its observation *)
